@@ -6,7 +6,13 @@ source of events (`events()`), a recorder of what is sent (`send(event)` -> opaq
 from pyvc.api import *
 from props.prelude import *
 
-CLAIM = "proof"
+CLAIM = "other"
+EXPLANATION = ("T1 proves the mechanisms relative to the trusted wsproto event contract: the Fragmentizer arithmetic for any positive FRAGMENT_SIZE and messages of up to "
+               "4 fragments (slices tile the content, original frame lengths re-used iff the length is unchanged, finished flag only on the last fragment, text cuts on "
+               "character boundaries for unmodified messages) and the per-event contract of WebsocketLayer.relay_messages (recorded once, one hook, dropped => nothing "
+               "sent, fragments to the other peer only and in order, ping/pong relayed, close code/reason recorded, both sides closed, one end hook, nothing after the "
+               "end); arbitrary message sequences, longer messages, real frame parsing / permessage-deflate and multi-byte text through the whole layer are bounded (T2, "
+               "real wsproto peers in memory)")
 WSL = "mitmproxy.proxy.layers.websocket"
 FR = WSL + ":Fragmentizer"
 WSPROTO = ["/venv/lib/python3.12/site-packages/wsproto"]
@@ -175,13 +181,13 @@ def ascii_str(vc, name):
     return s, s.encode()
 
 
-@scenario("relay.message", functions=[WL + ".relay_messages", WC + ".send2", FR + ".__call__", FR + ".msg"], extra_inline_roots=WSPROTO, max_unroll=5)
+@scenario("relay.message", functions=[WL + ".relay_messages", WC + ".send2", FR + ".__call__", FR + ".msg"], extra_inline_roots=WSPROTO, max_unroll=5, z3_timeout_ms=3000, utf8_facts=True)
 def s_relay_msg(vc):
     from wsproto.frame_protocol import Opcode
     from_client = vc.case("from_client", [True, False])
     is_text = vc.case("type", ["binary", "text"]) == "text"
     nframes = vc.case("frames", [1, 2])
-    partial = vc.case("first_frame_in_two_pieces", [False, True])
+    partial = (not is_text) and vc.case("first_frame_in_two_pieces", [False, True])
     policy = vc.case("addon", ["keep", "same_length_edit", "edit", "drop"])
     lay, flow, client, server, cws, sws = mk_ws_layer(vc)
     src, dst = (cws, sws) if from_client else (sws, cws)
@@ -274,6 +280,10 @@ def s_relay_msg(vc):
         vc.ensure("binary.concatenated_fragments_equal_recorded_content", vc.eq(joined, final))
 
 
+import mitmproxy.proxy.layers.websocket as _W
+_FR_CLS = [_W.Fragmentizer]      # the class itself (vc.summary patches the module attribute natively)
+
+
 def set_fragment_size(vc, fs):
     """Fragmentizer.FRAGMENT_SIZE (class attribute, documented as patchable) is any positive value: the constructor call is
     replaced by its contract (scenario fragmentizer.init: fragment_lengths = lengths of the buffered frames, is_text kept)
@@ -281,7 +291,7 @@ def set_fragment_size(vc, fs):
 
     def ctor(v, fragments, is_text):
         frs = items_of(v, fragments)
-        return v.new(FR, fragment_lengths=v.list([len_(x) for x in frs]), is_text=is_text, FRAGMENT_SIZE=fs)
+        return v.new(_FR_CLS[0], fragment_lengths=v.list([len_(x) for x in frs]), is_text=is_text, FRAGMENT_SIZE=fs)
 
     vc.summary(FR, ctor)
 
@@ -294,3 +304,320 @@ def s_frag_init(vc):
     fl = items_of(vc, fr.fragment_lengths)
     vc.ensure("lengths_of_the_buffered_frames", len(fl) == len(chunks) and (And(*[vc.eq(a, len_(c)) for a, c in zip(fl, chunks)]) if chunks else True))
     vc.ensure("type_kept", vc.eq(fr.is_text, is_text))
+
+
+@scenario("relay.ping_pong", functions=[WL + ".relay_messages", WC + ".send2"], extra_inline_roots=WSPROTO)
+def s_ping(vc):
+    from_client = vc.case("from_client", [True, False])
+    kind = vc.case("kind", ["Ping", "Pong"])
+    lay, flow, client, server, cws, sws = mk_ws_layer(vc)
+    src, dst = (cws, sws) if from_client else (sws, cws)
+    e = vc.new("wsproto.events:" + kind, payload=vc.sym_bytes("payload"))
+    received, sent = install_wsproto(vc, [(src, [e])])
+    ev = vc.new("mitmproxy.proxy.events:DataReceived", connection=client if from_client else server, data=vc.sym_bytes("wire_in"))
+    out = vc.call(WL + ".relay_messages", lay, ev)
+    vc.ensure("no_exception", out.ok)
+    if not out.ok:
+        return
+    kinds = trace_kinds(out.trace)
+    vc.ensure("relayed_once_to_the_other_peer", kinds == ["Log", "SendData"] and len(sent) == 1 and sent[0][0] is dst and sent[0][1] is e)
+    if kinds == ["Log", "SendData"]:
+        vc.ensure("serialised_event_sent_on_other_connection", And(out.trace[1].connection is dst.conn, vc.eq(out.trace[1].data, b"<wire:0>")))
+    vc.ensure("no_message_recorded", len(items_of(vc, flow.websocket.messages)) == 0)
+
+
+@scenario("relay.close", functions=[WL + ".relay_messages", WC + ".send2", WL + ".done"], extra_inline_roots=WSPROTO)
+def s_close(vc):
+    from wsproto import ConnectionState as WS
+    from_client = vc.case("from_client", [True, False])
+    via = vc.case("via", ["close_frame", "connection_lost"])
+    # state of the two wsproto connections when the event is processed (the sender's is REMOTE_CLOSING/CLOSED per wsproto)
+    src_state = vc.case("sender_state", [WS.REMOTE_CLOSING, WS.CLOSED])
+    dst_state = vc.case("receiver_state", [WS.OPEN, WS.LOCAL_CLOSING, WS.CLOSED])
+    lay, flow, client, server, cws, sws = mk_ws_layer(vc, client_state=src_state if from_client else dst_state, server_state=dst_state if from_client else src_state)
+    src, dst = (cws, sws) if from_client else (sws, cws)
+    code, reason = vc.sym_int("code", lo=0, hi=65535), vc.sym_str("reason")
+    e = vc.new("wsproto.events:CloseConnection", code=code, reason=reason)
+    received, sent = install_wsproto(vc, [(src, [e])])
+    sconn = client if from_client else server
+    ev = vc.new("mitmproxy.proxy.events:DataReceived", connection=sconn, data=vc.sym_bytes("wire_in")) if via == "close_frame" else vc.new("mitmproxy.proxy.events:ConnectionClosed", connection=sconn)
+    out = vc.call(WL + ".relay_messages", lay, ev)
+    vc.ensure("no_exception", out.ok)
+    if not out.ok:
+        return
+    w = flow.websocket
+    vc.ensure("recorded.code_and_reason_are_the_closing_peers", And(vc.eq(w.close_code, code), vc.eq(w.close_reason, reason), vc.eq(w.closed_by_client, from_client)))
+    vc.ensure("recorded.end_timestamp", not isnone(w.timestamp_end))
+    kinds = trace_kinds(out.trace)
+    vc.ensure("one_end_hook_last", kinds.count("WebsocketEndHook") == 1 and kinds[-1] == "WebsocketEndHook")
+    closes = [c for c in out.trace if is_cmd(c, "CloseConnection")]
+    vc.ensure("both_connections_closed_once", len(closes) == 2 and any(c.connection is client for c in closes) and any(c.connection is server for c in closes))
+    states = {id(src): src_state, id(dst): dst_state}
+    expect_sent = [x for x in (sws, cws) if states[id(x)] in (WS.OPEN, WS.REMOTE_CLOSING)]
+    vc.ensure("close_frame_to_every_side_that_can_still_be_written", len(sent) == len(expect_sent) and all(a[0] is b and a[1] is e for a, b in zip(sent, expect_sent)))
+    vc.ensure("flow_not_live", vc.eq(flow.live, False))
+    h = (lay.fields if vc.mode == "sym" else lay.__dict__).get("_handle_event")
+    vc.ensure("state_done", h is not None and (h.func.qualname.endswith(".done") if vc.mode == "sym" else getattr(h, "__name__", "") == "done" or getattr(getattr(h, "__wrapped__", None), "__name__", "") == "done"))
+    # after the end nothing is relayed
+    late = vc.new("mitmproxy.proxy.events:DataReceived", connection=server if from_client else client, data=vc.sym_bytes("late"))
+    out2 = vc.call(WL + ".done", lay, late)
+    vc.ensure("done.emits_nothing", out2.ok and len(out2.trace) == 0)
+
+
+@scenario("relay.injected", functions=[WL + ".relay_messages", WC + ".send2", FR + ".__call__", FR + ".msg"], extra_inline_roots=WSPROTO, max_unroll=5, z3_timeout_ms=3000, utf8_facts=True)
+def s_injected(vc):
+    from wsproto.frame_protocol import Opcode
+    from_client = vc.case("from_client", [True, False])
+    is_text = vc.case("type", ["binary", "text"]) == "text"
+    lay, flow, client, server, cws, sws = mk_ws_layer(vc)
+    src, dst = (cws, sws) if from_client else (sws, cws)
+    if is_text:
+        _, content = ascii_str(vc, "content")
+    else:
+        content = vc.sym_bytes("content")
+    FS = vc.sym_int("fragment_size", lo=1)
+    vc.assume(len_(content) <= 2 * FS)          # up to two fragments (the fragment arithmetic itself: scenario fragmentizer)
+    set_fragment_size(vc, FS)
+    received, sent = install_wsproto(vc, [])
+    msg = vc.new("mitmproxy.websocket:WebSocketMessage", type=Opcode.TEXT if is_text else Opcode.BINARY, from_client=from_client, content=content,
+                 timestamp=5.0, dropped=False, injected=True)
+    ev = vc.new(WSL + ":WebSocketMessageInjected", flow=flow, message=msg)
+    hooks = []
+    out = vc.call(WL + ".relay_messages", lay, ev, on_yield=lambda c: hooks.append(c) if is_cmd(c, "WebsocketMessageHook") else None)
+    vc.ensure("no_exception", out.ok)
+    if not out.ok:
+        return
+    msgs = items_of(vc, flow.websocket.messages)
+    vc.ensure("recorded_once_as_injected", len(msgs) == 1 and len(hooks) == 1)
+    if len(msgs) != 1:
+        return
+    m = msgs[0]
+    vc.ensure("recorded.direction_type_flag", And(vc.eq(m.from_client, from_client), vc.eq(m.type, Opcode.TEXT if is_text else Opcode.BINARY), vc.eq(m.injected, True)))
+    vc.ensure("recorded.content_is_the_injected_content", vc.eq(m.content, content))
+    vc.ensure("nothing_fed_to_a_parser", len(received) == 0)
+    vc.ensure("delivered_to_the_other_peer_only", len(sent) >= 1 and all(w is dst for w, _ in sent))
+    payloads = [ev_fields(vc, e) for _, e in sent]
+    vc.ensure("finished_only_on_last", And(*[vc.eq(f, i == len(payloads) - 1) for i, (_, _, f) in enumerate(payloads)]) if payloads else False)
+    if not is_text and payloads:
+        joined = b""
+        for _, p, _ in payloads:
+            joined = joined + p
+        vc.ensure("binary.concatenated_fragments_equal_injected_content", vc.eq(joined, content))
+    vc.ensure("source_buffer_reset", And(len(items_of(vc, src.frame_buf)) == 1, vc.eq(items_of(vc, src.frame_buf)[0], b"")))
+
+
+# =============================================================================================
+# T2 (bounded): real WebsocketLayer between two real wsproto peers (in memory), FRAGMENT_SIZE patched to 4
+
+def bounded(tier, seed):
+    import itertools
+    import random
+
+    import wsproto
+    import wsproto.events as WE
+    import wsproto.extensions
+    from wsproto import ConnectionType
+    from wsproto.frame_protocol import Opcode
+
+    from mitmproxy import websocket as mws
+    from mitmproxy.proxy import events
+    from mitmproxy.proxy.layers import websocket as W
+    from mitmproxy.test import tflow
+    from props import sansio
+
+    b = Bounded()
+    FS = 4
+    texts = ["", "abc", "héllo", "日本語テキスト", "a😀b😀c", "xé"]
+    bins = [b"", b"\x00\xff\x80", bytes(range(11))]
+    payloads = [("t", t) for t in texts] + [("b", x) for x in bins]
+    patterns = ["whole", "two", "each_char"]
+    policies = ["keep", "same_len", "longer", "shorter", "drop"]
+    b.rule = ("message sequences (<= 2 quick / 3 thorough) over {client->server, server->client} x {text incl. multi-byte and astral characters, binary} x "
+              "fragment patterns {one frame, two frames, one frame per character/byte} x addon {keep, same-length edit, longer edit (> FRAGMENT_SIZE), shorter edit, drop} x "
+              "permessage-deflate on/off, plus injected messages, ping/pong and close with code and reason; real wsproto peers decode what the layer sends; "
+              "FRAGMENT_SIZE patched to 4; distinct = scenario tuple; non-trivial = an addon edit or an injection happened")
+    b.bound = "<= 3 messages per connection, payloads <= 21 bytes, FRAGMENT_SIZE = 4"
+    rnd = random.Random(seed)
+
+    def pmd():
+        e = wsproto.extensions.PerMessageDeflate()
+        e.finalize("permessage-deflate")
+        return e
+
+    def split(kind, data, pattern):
+        if pattern == "whole" or len(data) < 2:
+            return [data]
+        if pattern == "two":
+            k = len(data) // 2
+            return [data[:k], data[k:]]
+        return [data[i:i + 1] for i in range(len(data))]
+
+    def edit(policy, kind, content: bytes):
+        if policy == "same_len":
+            # same number of bytes, different character boundaries
+            if kind == "t":
+                n = len(content)
+                s = ("é" * (n // 2) + "a" * (n % 2)) if n else ""
+                s = ("a" + s)[:0] + s if n % 2 == 0 else "a" + "é" * (n // 2)
+                return s.encode()
+            return bytes((c + 1) % 256 for c in content)
+        if policy == "longer":
+            return ("aé😀" * 3).encode() if kind == "t" else bytes(range(200, 213))
+        if policy == "shorter":
+            return ("é" if kind == "t" else b"\x01") if False else ("é".encode() if kind == "t" else b"\x01")
+        return content
+
+    class Peer:
+        def __init__(self, typ, deflate):
+            self.ws = wsproto.Connection(typ, [pmd()] if deflate else [])
+            self.msgs = []          # (kind, [fragment payloads])
+            self.cur = []
+            self.part = None
+            self.other = []
+
+        def feed(self, data):
+            self.ws.receive_data(data)
+            for e in self.ws.events():
+                if isinstance(e, (WE.TextMessage, WE.BytesMessage)):
+                    self.part = e.data if self.part is None else self.part + e.data
+                    if e.frame_finished:
+                        self.cur.append(self.part)
+                        self.part = None
+                    if e.message_finished:
+                        self.msgs.append(("t" if isinstance(e, WE.TextMessage) else "b", self.cur))
+                        self.cur = []
+                else:
+                    self.other.append(e)
+
+    orig_fs = W.Fragmentizer.FRAGMENT_SIZE
+    W.Fragmentizer.FRAGMENT_SIZE = FS
+    try:
+        cases = []
+        one = [(d, p, pat, pol) for d in (True, False) for p in payloads for pat in patterns for pol in policies]
+        for deflate in (False, True):
+            for m in one:
+                cases.append((deflate, (m,), None))
+        seqs = list(itertools.product(one, repeat=2))
+        rnd.shuffle(seqs)
+        for s in seqs[: (1500 if tier == "quick" else 40000)]:
+            cases.append((rnd.random() < 0.5, s, None))
+        for deflate in (False, True):
+            for d in (True, False):
+                for kind, data in payloads:
+                    cases.append((deflate, (), (d, kind, data)))
+        for deflate, seq, inject in cases:
+            flow = tflow.tflow(resp=True)
+            if deflate:
+                flow.response.headers["Sec-WebSocket-Extensions"] = "permessage-deflate"
+            flow.websocket = mws.WebSocketData()
+            ctx = sansio.context_for()
+            ctx.server.address = ("example.com", 80)
+            ctx.server.state = sansio.ConnectionState.OPEN
+            ctx.server.timestamp_start = 2.0
+            lay = W.WebsocketLayer(ctx, flow)
+            plan = {"i": 0}
+            pols = [m[3] for m in seq]
+
+            def policy(hook):
+                if hook.name == "websocket_message":
+                    m = hook.flow.websocket.messages[-1]
+                    if m.injected:
+                        return
+                    pol = pols[plan["i"]]
+                    plan["i"] += 1
+                    if pol == "drop":
+                        m.drop()
+                    elif pol != "keep":
+                        m.content = edit(pol, "t" if m.is_text else "b", m.content)
+
+            d = sansio.Driver(lay, hook_policy=policy)
+            d.start()
+            cpeer, speer = Peer(ConnectionType.CLIENT, deflate), Peer(ConnectionType.SERVER, deflate)
+            mark = 0
+
+            def pump():
+                nonlocal mark
+                for conn, data in d.sent_chunks[mark:]:
+                    (cpeer if conn is ctx.client else speer).feed(data)
+                mark = len(d.sent_chunks)
+
+            inp = {"deflate": deflate, "messages": [[m[0], m[1][0], m[1][1] if isinstance(m[1][1], str) else m[1][1].hex(), m[2], m[3]] for m in seq], "inject": None if inject is None else [inject[0], inject[1], inject[2] if isinstance(inject[2], str) else inject[2].hex()]}
+            expected = {True: [], False: []}     # per direction: (kind, content bytes, original fragment payloads or None)
+            for from_client, (kind, data), pat, pol in seq:
+                peer, conn = (cpeer, ctx.client) if from_client else (speer, ctx.server)
+                frags = split(kind, data, pat)
+                for i, fr_ in enumerate(frags):
+                    ev = (WE.TextMessage if kind == "t" else WE.BytesMessage)(data=fr_, message_finished=i == len(frags) - 1)
+                    d.data(conn, peer.ws.send(ev))
+                pump()
+            msgs = flow.websocket.messages
+            n_in = len(seq)
+            if len(msgs) != n_in:
+                b.fail("ws.recorded_once_per_message", inp, f"{len(msgs)} recorded for {n_in} messages")
+            if inject is not None:
+                from_client, kind, data = inject
+                content = data.encode() if kind == "t" else data
+                d.feed(W.WebSocketMessageInjected(flow, mws.WebSocketMessage(Opcode.TEXT if kind == "t" else Opcode.BINARY, from_client, content)))
+                pump()
+                rec = flow.websocket.messages[-1] if flow.websocket.messages else None
+                if rec is None or not rec.injected or rec.from_client != from_client:
+                    b.fail("ws.injected_recorded", inp, repr(rec))
+                elif rec.content != content:
+                    b.fail("ws.injected_text_recorded_corrupted[KF-C28-1]" if kind == "t" and "�" in rec.content.decode(errors="replace") else "ws.injected_content_recorded_as_given", inp, f"{rec.content!r} != {content!r}")
+            # what each peer must have received: the recorded messages of the other direction, not dropped, in order
+            for to_client in (True, False):
+                peer = cpeer if to_client else speer
+                want = [m for m in flow.websocket.messages if m.from_client != to_client and not m.dropped]
+                got = peer.msgs
+                if len(got) != len(want):
+                    b.fail("ws.delivered_exactly_once_in_order", inp, f"to_{'client' if to_client else 'server'}: {len(got)} delivered, {len(want)} recorded")
+                    continue
+                for m, (gk, gfr) in zip(want, got):
+                    gcontent = "".join(gfr).encode() if gk == "t" else b"".join(gfr)
+                    if (gk == "t") != m.is_text:
+                        b.fail("ws.same_type", inp, f"{gk} vs {m.type}")
+                    if gcontent != m.content:
+                        valid = True
+                        try:
+                            m.content.decode()
+                        except UnicodeDecodeError:
+                            valid = False
+                        cls = "ws.text_fragment_cuts_character[KF-C28-1]" if (m.is_text and valid and "�" in gcontent.decode(errors="replace")) else "ws.delivered_content_equals_recorded"
+                        b.fail(cls, inp, f"delivered {gcontent!r} recorded {m.content!r}")
+            # unmodified messages keep their frame boundaries
+            idx = {True: 0, False: 0}
+            for k, (from_client, (kind, data), pat, pol) in enumerate(seq):
+                if pol == "drop":
+                    continue
+                peer = speer if from_client else cpeer
+                j = idx[from_client]
+                idx[from_client] += 1
+                if pol == "keep" and j < len(peer.msgs):
+                    orig = [f for f in split(kind, data, pat)]
+                    # with permessage-deflate the inflater hands out decompressed data lazily (also in the observing peer), so
+                    # only the number of frames is observable; without it the payload of every frame is
+                    same = len(peer.msgs[j][1]) == len(orig) if deflate else peer.msgs[j][1] == orig
+                    if not same:
+                        b.fail("ws.unmodified_keeps_frame_boundaries", inp, f"{peer.msgs[j][1]!r} vs {orig!r}")
+            # ping / pong / close
+            d.data(ctx.client, cpeer.ws.send(WE.Ping(b"p1")))
+            pump()
+            if not any(isinstance(e, WE.Ping) and bytes(e.payload) == b"p1" for e in speer.other):
+                b.fail("ws.ping_relayed", inp, repr(speer.other))
+            d.data(ctx.server, speer.ws.send(WE.Pong(b"p2")))
+            pump()
+            if not any(isinstance(e, WE.Pong) and bytes(e.payload) == b"p2" for e in cpeer.other):
+                b.fail("ws.pong_relayed", inp, repr(cpeer.other))
+            d.data(ctx.server, speer.ws.send(WE.CloseConnection(4001, "bye é")))
+            pump()
+            w = flow.websocket
+            if (w.close_code, w.close_reason, w.closed_by_client) != (4001, "bye é", False):
+                b.fail("ws.close_code_and_reason_recorded", inp, f"{w.close_code} {w.close_reason!r} {w.closed_by_client}")
+            if not any(isinstance(e, WE.CloseConnection) and e.code == 4001 for e in cpeer.other):
+                b.fail("ws.close_relayed", inp, repr(cpeer.other))
+            if d.hook_names().count("websocket_end") != 1 or flow.live:
+                b.fail("ws.ends_once", inp, str(d.hook_names()))
+            b.case((deflate, seq, inject), nontrivial=inject is not None or any(p not in ("keep",) for p in pols))
+    finally:
+        W.Fragmentizer.FRAGMENT_SIZE = orig_fs
+    return b
